@@ -11,7 +11,7 @@ Model: the storage-level engine model `Eng` (Model/Engine.lean): `TopicCleanTrac
 never), the write-all-on-drop of a clean shutdown (`closeInst`), hydration from the marker file at
 open (`openInst`), a process restart (`restart` = clean shutdown + new process), interleaved with
 **every** other operation of the engine (appends, batches, both read APIs, counts, reclamation, clock
-changes), rejected operations included.
+changes), rejected operations and operations with injected I/O failures included.
 
 `C17_markers` is the full statement: along any history, every `topic_is_clean` query answers exactly
 what the latest returned `append`/`batch_append`/`mark_topic_*` call on that topic prescribes
@@ -37,6 +37,10 @@ def markersOK : (Topic → Bool) → List (Op × Out) → Prop
     | .append t _, _ => markersOK (upd e t false) rest
     | .batch _ _, .err .closed => markersOK e rest
     | .batch t _, _ => markersOK (upd e t false) rest
+    | .appendF _ _ _, .err .closed => markersOK e rest
+    | .appendF t _ _, _ => markersOK (upd e t false) rest
+    | .batchF _ _ _, .err .closed => markersOK e rest
+    | .batchF t _ _, _ => markersOK (upd e t false) rest
     | .mark _ _, .err .closed => markersOK e rest
     | .mark t b, _ => markersOK (upd e t b) rest
     | _, _ => markersOK e rest
@@ -49,6 +53,18 @@ theorem markersOK_append_ne (e : Topic → Bool) (t : Topic) (pay : Pay) (o : Ou
 
 theorem markersOK_batch_ne (e : Topic → Bool) (t : Topic) (ps : List Pay) (o : Out) (l : List (Op × Out))
     (h : o ≠ .err .closed) : markersOK e ((.batch t ps, o) :: l) = markersOK (upd e t false) l := by
+  cases o with
+  | err k => cases k <;> first | rfl | exact absurd rfl h
+  | _ => rfl
+
+theorem markersOK_appendF_ne (e : Topic → Bool) (t : Topic) (pay : Pay) (f : Fault) (o : Out) (l : List (Op × Out))
+    (h : o ≠ .err .closed) : markersOK e ((.appendF t pay f, o) :: l) = markersOK (upd e t false) l := by
+  cases o with
+  | err k => cases k <;> first | rfl | exact absurd rfl h
+  | _ => rfl
+
+theorem markersOK_batchF_ne (e : Topic → Bool) (t : Topic) (ps : List Pay) (f : Fault) (o : Out) (l : List (Op × Out))
+    (h : o ≠ .err .closed) : markersOK e ((.batchF t ps f, o) :: l) = markersOK (upd e t false) l := by
   cases o with
   | err k => cases k <;> first | rfl | exact absurd rfl h
   | _ => rfl
@@ -146,10 +162,10 @@ theorem runFrom_markersOK (c : Cfg) (ops : List Op) (p : Proc) (e : Topic → Bo
       | none => rw [withInst_none _ _ hi]; simp only [markersOK]; exact ih _ _ h
       | some i =>
         rw [withInst_some _ _ i hi]
-        have hfr := frame_appendForTopic c p i t pay
+        have hfr := frame_appendForTopic c p i t pay none
         have hm := minv_mark p { (appendForTopic c p i t pay).1 with inst := some (appendForTopic c p i t pay).2.1 }
           i _ e t false hi hfr.1 rfl hfr.2 h
-        have hne := appendForTopic_ne_closed c p i t pay
+        have hne := appendForTopic_ne_closed c p i t pay none
         rw [markersOK_append_ne _ _ _ _ _ hne]
         exact ih _ _ hm
     | batch t ps =>
@@ -158,11 +174,36 @@ theorem runFrom_markersOK (c : Cfg) (ops : List Op) (p : Proc) (e : Topic → Bo
       | none => rw [withInst_none _ _ hi]; simp only [markersOK]; exact ih _ _ h
       | some i =>
         rw [withInst_some _ _ i hi]
-        have hfr := frame_batchAppendForTopic c p i t ps
+        have hfr := frame_batchAppendForTopic c p i t ps none
         have hm := minv_mark p { (batchAppendForTopic c p i t ps).1 with inst := some (batchAppendForTopic c p i t ps).2.1 }
           i _ e t false hi hfr.1 rfl hfr.2 h
-        have hne := batchAppendForTopic_ne_closed c p i t ps
+        have hne := batchAppendForTopic_ne_closed c p i t ps none
         rw [markersOK_batch_ne _ _ _ _ _ hne]
+        exact ih _ _ hm
+
+    | appendF t pay flt =>
+      simp only [step]
+      cases hi : p.inst with
+      | none => rw [withInst_none _ _ hi]; simp only [markersOK]; exact ih _ _ h
+      | some i =>
+        rw [withInst_some _ _ i hi]
+        have hfr := frame_appendForTopic c p i t pay (some flt)
+        have hm := minv_mark p { (appendForTopic c p i t pay (some flt)).1 with inst := some (appendForTopic c p i t pay (some flt)).2.1 }
+          i _ e t false hi hfr.1 rfl hfr.2 h
+        have hne := appendForTopic_ne_closed c p i t pay (some flt)
+        rw [markersOK_appendF_ne _ _ _ _ _ _ hne]
+        exact ih _ _ hm
+    | batchF t ps flt =>
+      simp only [step]
+      cases hi : p.inst with
+      | none => rw [withInst_none _ _ hi]; simp only [markersOK]; exact ih _ _ h
+      | some i =>
+        rw [withInst_some _ _ i hi]
+        have hfr := frame_batchAppendForTopic c p i t ps (some flt)
+        have hm := minv_mark p { (batchAppendForTopic c p i t ps (some flt)).1 with inst := some (batchAppendForTopic c p i t ps (some flt)).2.1 }
+          i _ e t false hi hfr.1 rfl hfr.2 h
+        have hne := batchAppendForTopic_ne_closed c p i t ps (some flt)
+        rw [markersOK_batchF_ne _ _ _ _ _ _ hne]
         exact ih _ _ hm
 
 /-- **C17.** Along any history of engine operations — appends, batch appends, `mark_topic_clean`,
